@@ -1,14 +1,14 @@
 package main
 
 import (
-	"golang.org/x/tools/go/ssa"
-	"runtime/debug"
 	"encoding/json"
 	"flag"
 	"fmt"
+	"golang.org/x/tools/go/ssa"
 	"os"
 	"path/filepath"
 	"regexp"
+	"runtime/debug"
 	"sort"
 	"strconv"
 	"strings"
